@@ -37,6 +37,10 @@ checks={
    technique="exhaustive enumeration of every node on every path of small and medium tries x a fixed mutation-operator set through the real validator and Put against an independent proof walker",
    text="Account tries over all 63 subsets of a 6-key pool (root branch, extensions, embedded nodes, single leaf), a hand-assembled trie with non-canonical nodes, tries of 1/4/50 (thorough 200/500) hashed keys with storage tries and bytecode; every hash-referenced node is a claim. ~38 mutation operators at every applicable position, singly and in ordered pairs (thorough: + bit flip then structural operator): validator accepts <=> an independent walker written against go-ethereum's rlp accepts (tri-state: silent where the statement is); rejection is an error, never a panic; Put stores exactly the final node / the code and nothing on error.",
    note="Reference silent on non-canonical nodes, slim account RLP and beyond wire limits (counted, never accepted by the implementation).", design="5/C13"),
+ "C17": dict(level="fault_enumeration", engine="E5",
+   technique="exhaustive crash-point enumeration: every file-system write operation index of every history x {keep, drop unsynced}, freeze, copy, reopen the real store, evaluate recovery clauses",
+   text="6 put histories (crossing capacity, overwrite, empty and oversize values, stores left at 94% / 96% / 100% of capacity, many small items then a prune) x 2 pebble configurations (defaults; 128 kB memtable with eager L0 compaction so that flushes, sstables, manifest edits, WAL rotation and compactions occur) on pebble's strict in-memory FS. For every write-kind FS operation index k (58-123 per history) and both loss models the world is frozen at k, the tree copied and reopened with pebble.Open + NewStorage: open succeeds; every item present (scan and Get) is byte-identical to a value put under that id before the cut; persisted and in-memory usage >= bytes present; an over-capacity store is pruned on open; radius is the maximum at <= 95% (or when nothing is retained) and the farthest retained key above; then two further puts are checked.",
+   note="Fail-stop at operation boundaries, all-or-nothing loss of unsynced data, no torn writes (pebble's MemFS models neither). Where the fault-free operation count varies between runs the evidence says exhaustive:false.", design="5/C17"),
 }
 na_reason="check not built yet (work in progress; will be claimed once its checker exists)"
 m={"version":1,
@@ -48,6 +52,7 @@ m={"version":1,
   {"name":"E1","path":"harness/mc/dfs.go","serves_properties":[],"kind_free_text":"stateless choice-sequence DFS with deviation bound; product enumeration"},
   {"name":"E3","path":"harness/sched.go","serves_properties":[],"kind_free_text":"controlled concurrency: gates + synctest quiescence; schedules = choice sequences with a preemption bound; mutexes of instrumented files modelled"},
   {"name":"E6","path":"harness/cmd/instr/main.go","serves_properties":[],"kind_free_text":"AST yield / lock-hook injection into the current sources, applied with go build -overlay"},
+  {"name":"E5","path":"harness/c17.go","serves_properties":[],"kind_free_text":"crash-point enumeration on pebble's vfs (errorfs injector that freezes the world at operation k; strict MemFS keep/drop unsynced)"},
   {"name":"E2","path":"harness/mc/bfs.go","serves_properties":[],"kind_free_text":"explicit-state BFS; a state is the event history reaching it, successor = replay on a fresh real instance + 1 event; dedup on a canonical rendering"},
  ],
  "checks":[], "not_applicable":[],
